@@ -22,7 +22,7 @@ STUB = ['thread scheduler', 'clock', 'asyncio selector', 'id() allocator (determ
 def gen(rng, tier):
     tree = servers.gen_tree(rng, proc_ok=PROC_READY and rng.random() < 0.15)
     lvs = servers.leaves(tree)
-    nxt = iter(range(1, 1000))
+    nxt = iter(range(rng.choice([0, 1]), 1000))  # request value 0 (falsy) included in half of the runs
     callers = []
     allx = []
     svc = servers.mean_service_time(tree)
